@@ -89,3 +89,5 @@ open Csproto
 #print axioms Csproto.Bridge.PackedFuncs.DecodePackedUint32_refines
 #print axioms Csproto.Bridge.PackedFuncs.loop_eqJ
 #print axioms Csproto.Bridge.PackedFuncs.DecodePackedInt32_refines
+#print axioms Csproto.Bridge.PackedFuncs.DecodePackedFixed64_refines
+#print axioms Csproto.Bridge.PackedFuncs.DecodePackedFixed32_refines
